@@ -15,7 +15,8 @@ use rustdds::verif::{hooks, registry, Outcome, Verdict};
 struct Known {
   sigs: Vec<String>,
   /// function paths taken from the signatures' keys
-  frames: Vec<String>,
+  /// (function name, kind of panic message or empty for any)
+  frames: Vec<(String, String)>,
 }
 
 static KNOWN: OnceLock<Known> = OnceLock::new();
@@ -45,12 +46,17 @@ fn init(property: &str) {
             if key.contains("rustdds::") {
               // backtraces of this build print short function names
               let path = &key[key.find("rustdds::").unwrap()..];
+              // panic signatures are `function#kind-of-message`
+              let (path, kind) = match path.split_once('#') {
+                Some((p, k)) => (p, k.to_string()),
+                None => (path, String::new()),
+              };
               let segs: Vec<&str> = path.split("::").collect();
               let last = segs[segs.len() - 1];
               if last.len() >= 8 {
-                frames.push(last.to_string());
+                frames.push((last.to_string(), kind));
               } else if segs.len() >= 2 {
-                frames.push(format!("{}::{}", segs[segs.len() - 2], last));
+                frames.push((format!("{}::{}", segs[segs.len() - 2], last), kind));
               }
             }
           }
@@ -87,7 +93,22 @@ pub fn run(property: &str, scenario: u32, data: &[u8]) {
     Ok(_) => {}
     Err(p) => {
       let bt = LAST_BACKTRACE.with(|b| b.borrow().clone());
-      if known.frames.iter().any(|f| bt.contains(f.as_str())) {
+      let kind_of = |text: &str| -> String {
+        let first = text.lines().next().unwrap_or("");
+        // "panicked at file:line:col:" is followed by the message on the next line
+        let msg = text.lines().nth(1).unwrap_or(first);
+        msg
+          .chars()
+          .filter(|ch| ch.is_ascii_alphabetic() || *ch == ' ')
+          .collect::<String>()
+          .split_whitespace()
+          .take(7)
+          .collect::<Vec<_>>()
+          .join("_")
+          .to_lowercase()
+      };
+      let kind = kind_of(&bt);
+      if known.frames.iter().any(|(f, k)| bt.contains(f.as_str()) && (k.is_empty() || *k == kind)) {
         return;
       }
       eprintln!("PANIC in property {property} scenario {scenario}:\n{}", bt.chars().take(6000).collect::<String>());
